@@ -208,7 +208,28 @@ func init() {
 
 		// specifications
 		var specs, conflicting []*detSpec
-		for i, attempts := 0, 0; len(specs) < c.N && attempts < c.N*60; attempts++ {
+		{
+			// directed: rule types from four imported packages, mentioned by the productions of one rule in four different
+			// orders, spread over several methods (import aliases are handed out in first-use order: any map iteration on
+			// the way from the methods to the emitted casts shows between processes)
+			ds := &detSpec{idx: 900, kind: "parser directed (four imported packages in differing orders)+imports", c: &cliCase{}, old: &cliCase{}}
+			ds.c.put("g.lox", []byte("@lexer\nA = 'a'\nB = 'b'\nC = 'c'\nD = 'd'\n@frag [ \\n]+ @discard\n@parser\n@start top = x y z | y x w | z y x | z x | w z y\nx = A\ny = B\nz = C\nw = D | D w\n"))
+			ds.c.put("p.go", []byte("package "+pkg+"\n\nimport (\n\t\"go/ast\"\n\t\"math/big\"\n\t\"net/url\"\n\t\"text/scanner\"\n\t\"time\"\n)\n\n"+
+				"type Token struct{ N int }\n\ntype P struct {\n\tlox\n}\n\n"+
+				"func (p *P) on_top__a(a *big.Int, b *ast.File, c time.Duration) url.Values { return nil }\n"+
+				"func (p *P) on_top__b(b *ast.File, a *big.Int, d scanner.Position) url.Values { return nil }\n"+
+				"func (p *P) on_top__c(c time.Duration, b *ast.File, a *big.Int) url.Values { return nil }\n"+
+				"func (p *P) on_top__d(c time.Duration, a *big.Int) url.Values { return nil }\n"+
+				"func (p *P) on_top__e(d scanner.Position, c time.Duration, b *ast.File) url.Values { return nil }\n"+
+				"func (p *P) on_x(t Token) *big.Int { return nil }\nfunc (p *P) on_y(t Token) *ast.File { return nil }\n"+
+				"func (p *P) on_z(t Token) time.Duration { return 0 }\nfunc (p *P) on_w__one(t Token) scanner.Position { return scanner.Position{} }\n"+
+				"func (p *P) on_w__more(t Token, w scanner.Position) scanner.Position { return w }\n"))
+			ds.old = ds.c.clone()
+			src, _ := ds.old.get("p.go")
+			ds.old.put("p.go", []byte(strings.Replace(string(src), "package "+pkg, "package oldpkg", 1)))
+			specs = append(specs, ds)
+		}
+		for i, attempts := 0, 0; len(specs) < c.N+1 && attempts < c.N*60; attempts++ {
 			ds := &detSpec{idx: i, c: &cliCase{}, old: &cliCase{}}
 			switch i % 4 {
 			case 0, 1, 3:
@@ -305,7 +326,7 @@ func init() {
 		var acc []*detSpec
 		for _, ds := range specs {
 			if ds.base.res.Exit == 0 && !ds.base.res.TimedOut {
-				if len(acc) < c.N {
+				if len(acc) < c.N+1 {
 					acc = append(acc, ds)
 				}
 			} else {
